@@ -23,7 +23,8 @@ package main
 // snappy + crc32, called directly, make of it: (e decodedHex|none crc). `ov`: the same for payloads
 // of the derived input that differ from the file's ((i e)...). `recs`: the distinct records handed
 // to the callback (dumpVal form); `ids` refers to them ((r start n) = n consecutive ids, (x id n) = n
-// copies). res: ok | err | cberr (the callback's own error value came back) | cbwrapped | (panic msg).
+// copies). res: ok | err | cberr (the callback's own error value came back) | cbwrapped | (panic msg)
+// | skipped (a deflate payload changed into one that inflates to other bytes: not executed).
 
 import (
 	"bufio"
@@ -428,16 +429,58 @@ func execFile(op string, a []sx) sx {
 		infl.list = append(infl.list, entryFor(codec, b.payload))
 	}
 	var outs []sx
+	baseDec := make([][]byte, len(base))
+	for i := range base {
+		if d := infl.list[i+1].list[1]; d.atom != "none" {
+			baseDec[i] = d.bytes()
+		}
+	}
+	// compactEntry: the entry of a changed payload relative to the file's own entry for that block:
+	// (e same crc) same decoded bytes, (e (patch pos byteHex) crc) one byte differs, else the full entry.
+	compactEntry := func(i int, e sx) (sx, bool) {
+		if i >= len(base) || e.list[1].atom == "none" || infl.list[i+1].list[1].atom == "none" {
+			return e, e.list[1].atom != "none"
+		}
+		d, b := e.list[1].bytes(), baseDec[i]
+		if bytes.Equal(d, b) {
+			return T("e", A("same"), e.list[2]), false
+		}
+		if len(d) == len(b) {
+			diff, at := 0, 0
+			for j := range d {
+				if d[j] != b[j] {
+					diff++
+					at = j
+				}
+			}
+			if diff == 1 {
+				return T("e", T("patch", I(int64(at)), H(d[at:at+1])), e.list[2]), true
+			}
+		}
+		return e, true
+	}
 	one := func(mut []byte, failAt int, walk bool) {
-		ids, res := fr.read(mut, failAt)
 		ov := L()
+		garbage := false
 		if walk {
 			for i, b := range walkFile(mut) {
 				if i >= len(base) || !bytes.Equal(b.payload, base[i].payload) {
-					ov.list = append(ov.list, L(I(int64(i)), entryFor(codec, b.payload)))
+					e, other := compactEntry(i, entryFor(codec, b.payload))
+					ov.list = append(ov.list, L(I(int64(i)), e))
+					// A deflate payload that still inflates, but to other bytes, cannot be detected by any
+					// reader (the format has no checksum); decoding the garbage is the business of C06 and
+					// can exhaust memory (array counts are allocated as declared), so it is not executed.
+					if codec == "deflate" && other {
+						garbage = true
+					}
 				}
 			}
 		}
+		if garbage {
+			outs = append(outs, T("o", L(), A("skipped"), ov))
+			return
+		}
+		ids, res := fr.read(mut, failAt)
 		outs = append(outs, T("o", idsSx(ids), res, ov))
 	}
 	flip := func(pos, bit int) {
@@ -935,12 +978,12 @@ func shortPayloads(c *ctx, g *genFile) {
 }
 
 func genC07(c *ctx) {
-	nStatic := c.scale(12, 60)
+	nStatic := c.scale(12, 36)
 	for i := 0; i < nStatic; i++ {
 		g := genStatic(c.rng, i, fileCodecs[i%3], c.scale(700, 3000))
 		g.damageCases(c)
 	}
-	nSpec := c.scale(24, 150)
+	nSpec := c.scale(24, 90)
 	for i := 0; i < nSpec; i++ {
 		g := genSpec(c.rng, fileCodecs[i%3], c.scale(600, 2500), i/3)
 		g.damageCases(c)
@@ -981,7 +1024,7 @@ func genC08(c *ctx) {
 		}
 	}
 	limit := c.scale(4096, 16384)
-	for i := 0; i < c.scale(12, 80); i++ {
+	for i := 0; i < c.scale(12, 50); i++ {
 		var g *genFile
 		for {
 			g = genStatic(c.rng, i, fileCodecs[i%3], c.scale(5000, 14000))
@@ -991,7 +1034,7 @@ func genC08(c *ctx) {
 		}
 		emitCuts(g)
 	}
-	for i := 0; i < c.scale(18, 120); i++ {
+	for i := 0; i < c.scale(18, 75); i++ {
 		var g *genFile
 		for {
 			g = genSpec(c.rng, fileCodecs[i%3], c.scale(3000, 9000), i/3)
@@ -1004,7 +1047,7 @@ func genC08(c *ctx) {
 	if c.thorough {
 		// a few large files (beyond the 4096-byte buffer of bufio.Reader, up to 64 kB)
 		for i := 0; i < 3; i++ {
-			n := 150 + c.rng.Intn(100)
+			n := 100 + c.rng.Intn(120)
 			recs := make([]recF1, n)
 			for j := range recs {
 				recs[j] = genF1(c.rng, j)
